@@ -231,6 +231,23 @@ def t_async():
         c = noop()
         fact("T-TG:a-finished-group-refuses-new-tasks-with-RuntimeError", raises(RuntimeError, lambda: tg2.create_task(c)))
         c.close()
+        try:                                   # single use: a finished group ...
+            await tg2.__aenter__()
+            fact("T-TG:entering-a-group-a-second-time-raises-RuntimeError", False)
+        except RuntimeError:
+            fact("T-TG:entering-a-group-a-second-time-raises-RuntimeError", True)
+        tg_active = asyncio.TaskGroup()
+        async with tg_active:                  # ... and one that is still active
+            try:
+                await tg_active.__aenter__()
+                fact("T-TG:entering-an-active-group-again-raises-RuntimeError", False)
+            except RuntimeError:
+                fact("T-TG:entering-an-active-group-again-raises-RuntimeError", True)
+        try:                                   # T-LOOP: a thread without an event loop
+            await asyncio.to_thread(asyncio.get_event_loop)
+            fact("T-LOOP:get_event_loop-raises-RuntimeError-in-a-thread-without-a-loop", False)
+        except RuntimeError:
+            fact("T-LOOP:get_event_loop-raises-RuntimeError-in-a-thread-without-a-loop", True)
         body = asyncio.CancelledError()
         tg3 = asyncio.TaskGroup()
         await tg3.__aenter__()
